@@ -17,8 +17,9 @@ RULE = ("Every shipped instance is visited (Hill 0..999, Shekel 0..999, Grishagi
         "certificate up to L*h/2; GKLS: generated points in every ball and outside; StronginC3: feasible set only; "
         "(c) bounded descent from the declared point must end within 0.5% of the side per coordinate at a value not "
         "above the best found by more than the (b) tolerance. Before an instance is built its predecessor in the family and the instance itself are "
-        "built and evaluated once in the same process (a sweep over the family), so a declaration that depends on "
-        "construction history is seen. Non-trivial: an instance with a second local minimum "
+        "built and evaluated once in the same process (a sweep over the family), and a younger sibling is built right "
+        "after it and stays alive during the checks, so a declaration or a function that depends on construction "
+        "history or on other live instances is seen. Non-trivial: an instance with a second local minimum "
         "within 10% of the value range of the global one. Distinct by construction (one case per instance).")
 ASSUMPTIONS = [
     "in two or more dimensions the global minimum is searched, not certified (grid resolution: Grishagin 1000^2 / "
@@ -343,11 +344,33 @@ def construction_history(fam, arg):
     return hist
 
 
+def successor(fam, arg):
+    """A younger sibling: the next member of the family (wrapping around)."""
+    if fam in ("hill", "shekel"):
+        return (arg + 1) % 1000
+    if fam == "grishagin":
+        return arg % 100 + 1 if arg % 10 else arg - 9        # stay inside the decade: cheap to construct
+    if fam == "shekel4":
+        return arg % 3 + 1
+    if fam in ("rastrigin", "xsquared"):
+        return arg % 8 + 1
+    if fam == "gkls":
+        dim, k = arg
+        return (dim, k % 100 + 1) if k % 2 else (2 + (dim - 1) % 4, k)     # same or another dimension
+    return None
+
+
 def check_instance(fam, arg, tier, seed):
     keep = construction_history(fam, arg)     # kept alive while the instance under test is built and checked
+    succ = successor(fam, arg)
+    if succ is not None:
+        # ... and a younger sibling is built right after the instance under test and stays alive during the checks
+        bench.construct_then(fam, arg, fam, succ)
     try:
         return _check_instance(fam, arg, tier, seed)
     finally:
+        bench.POST["spec"] = None
+        bench.POST["alive"] = []
         del keep
 
 
